@@ -188,8 +188,8 @@ def run_units(units, repo, verif, work, tier, jobs=None):
         done = set()
         for f in r.failed:
             hn = f.get('harness')
-            if not hn or hn in done:
-                continue
+            if not hn or hn in done or len(done) >= 1:
+                continue   # one concrete counterexample per unit is enough
             done.add(hn)
             pb = playback(scratch, env, full_name(u, hn))
             for g in r.failed:
@@ -214,7 +214,7 @@ def full_name(unit, harness):
 def playback(scratch, env, harness):
     cmd = ['cargo', 'kani', '-Z', 'function-contracts', '-Z', 'stubbing', '-Z', 'concrete-playback', '--concrete-playback=print', '--exact', '--harness', harness]
     try:
-        p = subprocess.run(cmd, cwd=scratch, env=env, stdout=subprocess.PIPE, stderr=subprocess.STDOUT, text=True, timeout=600)
+        p = subprocess.run(cmd, cwd=scratch, env=env, stdout=subprocess.PIPE, stderr=subprocess.STDOUT, text=True, timeout=400)
     except subprocess.TimeoutExpired:
         return None
     tests = re.findall(r'```\n(.*?)```', p.stdout, re.S)
